@@ -103,6 +103,10 @@ def latest(ctx) -> None:
     ctx.check('new = self._pick(registry)' in text and 'if new != old' in text and 'self._cache[registry] = new' in text, 'C17.latest', ref, 'a newer pick replaces the cached instance of the same registry', ref.node, key='refresh:update')
     if outer is not None:
         ctx.check(isinstance(outer.body[-1], ast.Expr) and core.src(outer.body[-1]) == 'time.sleep(self._interval)', 'C17.latest', ref, 'one round per refresh interval', outer, key='refresh:interval')
+        # the endless daemon loop must survive a failing round: all work of a round sits in a try with a broad handler
+        work = [s for s in outer.body[:-1]]
+        safe = len(work) == 1 and isinstance(work[0], ast.Try) and any(h.type is None or core.src(h.type) in ('Exception', 'BaseException') for h in work[0].handlers) and not any(isinstance(x, ast.Raise) for h in work[0].handlers for x in ast.walk(h))
+        ctx.check(safe, 'C17.latest', ref, 'a failing refresh round (e.g. Empty listing of a configured release without generations yet) must not terminate the refresher thread: later generations would never be picked up', outer, key='refresh:survives')
     sel = prog.func(f'{ci.ref}.select')
     text = core.src(sel.node)
     ctx.check('if registry not in self._cache' in text and 'self._cache[registry] = self._pick(registry)' in text and 'return self._cache[registry]' in text, 'C17.latest', sel, 'select serves the cached pick of the given registry (first call picks)', sel.node, key='select:cache')
@@ -151,6 +155,12 @@ def abtest(ctx) -> None:
     init = prog.func(f'{ci.ref}.__init__')
     text = core.src(init.node)
     ctx.check('combined = sum(targets)' in text and 't / combined' in text and 'zip(variants, targets)' in text, 'C17.abtest', init, 'targets are normalised by their combined weight, paired with their variants in order', init.node, key='init:normalise')
+    srt = next((c for c in core.calls_in(init.node) if core.call_name(c) == 'sorted'), None)
+    oks = srt is not None and any(k.arg == 'reverse' and core.is_const(k.value, True) for k in srt.keywords) and any(k.arg == 'key' and core.src(k.value).replace(' ', '') == 'lambdas:s.target' for k in srt.keywords)
+    ctx.check(oks, 'C17.abtest', init, 'slots are probed from the largest target share down (sorted by target, descending): the dominant variant is never starved by smaller ones', srt or init.node, key='init:slot-order')
+    imp = next((s for s in core.walk_local(init.node) if isinstance(s, ast.Assign) and core.src(s.targets[0]) == 'implicit'), None)
+    oki = imp is not None and core.src(imp.value).replace(' ', '') == '(1-explicit)/missingifexplicit<1elseexplicit/len(targets)'
+    ctx.check(oki, 'C17.abtest', init, 'an omitted target is the complement to 1 shared by the omitted variants (fractions) or the mean of the provided integer weights (sum / number of provided targets) as documented', imp or init.node, key='init:implicit-weight')
     ctx.check('len(set(variants)) != len(variants)' in text and 'raise ValueError' in text, 'C17.abtest', init, 'duplicate variants are rejected', init.node, key='init:exclusive')
     ctx.check('targets = [v.target or implicit for v in variants]' in text, 'C17.abtest', init, 'omitted targets are filled position-wise', init.node, key='init:implicit')
     var = prog.func(f'{ci.ref}.Variant.__new__')
